@@ -1135,8 +1135,11 @@ class MyPyAstVisitor:
             if type_name in {"int", "str", "bool", "float"}:
                 return sds_types.NamedType(name=type_name, qname=mypy_type.type.fullname)
 
+            # Classes of the analysed package or of other libraries can have the same names as the iterable builtins
+            is_builtin_class = mypy_type.type.fullname.startswith(("builtins.", "typing."))
+
             # Iterable builtins
-            elif type_name in {"tuple", "list", "set", "Sequence", "Collection"}:
+            if is_builtin_class and type_name in {"tuple", "list", "set", "Sequence", "Collection"}:
                 types = [self.mypy_type_to_abstract_type(arg) for arg in mypy_type.args]
                 match type_name:
                     case "tuple":
@@ -1150,7 +1153,7 @@ class MyPyAstVisitor:
                     case "Collection":
                         return sds_types.ListType(types=types)
 
-            elif type_name in {"dict", "Mapping"} and len(mypy_type.args) == 2:
+            elif is_builtin_class and type_name in {"dict", "Mapping"} and len(mypy_type.args) == 2:
                 return sds_types.DictType(
                     key_type=self.mypy_type_to_abstract_type(mypy_type.args[0]),
                     value_type=self.mypy_type_to_abstract_type(mypy_type.args[1]),
